@@ -48,6 +48,9 @@ def programs(tier):
         "10 DATA \"A\x0bB\" , C\x1cD\n20 READ A$ , B$",
         '10 DIM A$ : A$ = "X" : PRINT A$',
         '10 DIM N$ , M$ ( 3 ) : N$ = "A" : M$ ( 1 ) = N$ : B$ = N$ + M$ ( 1 )',
+        '10 REM run ecb_hdraw to draw the logo\n20 PRINT 1',
+        "10 ' run ecb_play : RUN ecb_cls\n20 GOTO 20",
+        '10 N$ ( 2 ) = "BOB" : PRINT N$ ( 2 ) ; Q ( 1 )',
         '10 PRINT "A"\n20 GOTO 10\n40000 PRINT "B"',
         '10 PRINT "A"\n32700 PRINT "B"',
         '10 GOTO 32699\n32699 PRINT "B"',
@@ -318,6 +321,21 @@ def check_one(src):
                 if not (o64[1].count(f"STRING[{n}]") == o80[1].count(f"STRING[{n}]") == obase[1].count(f"STRING[{n}]")):
                     sig("strsize:configured-size-lost", f"declarations with the configured size {n}: {obase[1].count(f'STRING[{n}]')} without -s, {o64[1].count(f'STRING[{n}]')} with -s 64, {o80[1].count(f'STRING[{n}]')} with -s 80")
                     break
+    # 5d. under -s 40 no string declaration is left at BASIC09's 32 bytes: every DIM that declares a string carries STRING[n]
+    if o[0] == "ok":
+        for ln in o[1].split("\n"):
+            code = re.sub(r'"[^"]*"', '""', re.sub(r"\(\*.*", "", ln))
+            m5 = re.match(r"\s*(?:\d+\s+)?DIM\s+([^:]*[A-Za-z_]\w*\$[^:]*)(:.*)?$", code)
+            if m5 and not re.search(r"STRING\[\d+\]", m5.group(2) or ""):
+                sig("strsize:declaration-left-at-32", f"with default_str_storage=40 the declaration `{code.strip()}` carries no size")
+                break
+    # 5e. label filtering with dependencies on: the bundle differs in labels only
+    od, odl = conv(output_dependencies=True, skip_procedure_headers=False), conv(output_dependencies=True, skip_procedure_headers=False, filter_unused_linenum=True)
+    out["pairs"] += 2
+    nolab = lambda t: "\n".join(x for x in (re.sub(r"^(\s*)\d+(\s+|$)", r"\1", ln).strip() for ln in t.split("\n")) if x)  # noqa: E731  (the bank drops empty lines; block indentation follows the label)
+    if od[0] == "ok" and odl[0] == "ok" and nolab(od[1]) != nolab(odl[1]):
+        pa, pb = set(re.findall(r"(?im)^procedure\s+(\S+)", od[1])), set(re.findall(r"(?im)^procedure\s+(\S+)", odl[1]))
+        sig("filter:bundle-differs" + (":procedures" if pa != pb else ":text"), f"with dependencies on, filtering changes more than labels (procedures only without filter: {sorted(pa - pb)[:3]}, only with: {sorted(pb - pa)[:3]})")
     # 5b. each option does the same thing whatever the other options are: the three text rules again from bases in which
     # one OTHER option is already changed (size 40 / pre-initialisation off / filtering on)
     b40, bz, bl = conv(default_str_storage=40), conv(initialize_vars=False), conv(filter_unused_linenum=True)
